@@ -336,6 +336,44 @@ impl FixedCapacityMemoryPool {
         Ok(())
     }
 
+    /// Verification hook: (base address, size) of the backing arena, if allocated.
+    #[cfg(feature = "verif-hooks")]
+    pub fn verif_arena(&self) -> Option<(usize, usize)> {
+        let memory = unsafe { *self.memory.get() }?;
+        let layout = unsafe { *self.memory_layout.get() }?;
+        Some((memory.as_ptr() as usize, layout.size()))
+    }
+
+    /// Verification hook: walk every size-class free list (quiescent use only).
+    #[cfg(feature = "verif-hooks")]
+    pub fn verif_walk_free_lists(&self) -> std::result::Result<Vec<(usize, Vec<u32>)>, String> {
+        let mut out = Vec::new();
+        let (base, size) = match self.verif_arena() {
+            Some(x) => x,
+            None => return Ok(out),
+        };
+        let free_lists = unsafe { &*self.free_lists.get() };
+        for (i, fl) in free_lists.iter().enumerate() {
+            let mut off = fl.head.load(Ordering::Acquire);
+            let mut offs = Vec::new();
+            let mut seen = std::collections::HashSet::new();
+            while off != LIST_TAIL {
+                if off as usize + std::mem::size_of::<BlockHeader>() > size {
+                    return Err(format!("class {} link {} outside arena", i, off));
+                }
+                if !seen.insert(off) {
+                    return Err(format!("class {} cycle at offset {}", i, off));
+                }
+                offs.push(off);
+                off = unsafe { (*((base + off as usize) as *const BlockHeader)).next };
+            }
+            if !offs.is_empty() {
+                out.push((self.size_classes[i], offs));
+            }
+        }
+        Ok(out)
+    }
+
     /// Get pool statistics
     pub fn stats(&self) -> Option<Arc<FixedCapacityPoolStats>> {
         self.stats.clone()
@@ -527,6 +565,8 @@ impl FixedCapacityMemoryPool {
             }
 
             let next_offset = header.next;
+            #[cfg(feature = "verif-hooks")]
+            crate::verif_hooks::sched_point(crate::verif_hooks::site::FC_ALLOC_AFTER_NEXT_READ);
 
             // Try to update head atomically
             if free_list.head.compare_exchange_weak(
@@ -585,6 +625,8 @@ impl FixedCapacityMemoryPool {
         loop {
             let (current_head, snapshot) = free_list.head.load_tagged(Ordering::Acquire);
             header.next = current_head;
+            #[cfg(feature = "verif-hooks")]
+            crate::verif_hooks::sched_point(crate::verif_hooks::site::FC_FREE_AFTER_LINK);
 
             if free_list.head.compare_exchange_weak(
                 snapshot,
